@@ -713,6 +713,8 @@ func (in *Interp) initExterns() {
 		}
 		return in.newError(msg)
 	}
+	// only ever formatted into error messages by the code under test: an opaque nil Type
+	E["reflect.TypeOf"] = func(in *Interp, _ *frame, f *ssa.Function, a []value) value { return in.zero(f.Signature.Results()) }
 	E["fmt.Sprintf"] = func(in *Interp, fr *frame, _ *ssa.Function, a []value) value {
 		s, _ := in.sprintf(fr, a[0].(Str), a[1].(Slice))
 		return s
